@@ -445,9 +445,17 @@ func (e *Engine) RunHarness(fn *ssa.Function, config map[string]string) (res *Ru
 	for _, o := range outs {
 		if o.panicked {
 			e.handlePanic(o)
-		} else {
-			e.rep.PathsCompleted++
+			continue
 		}
+		// goroutines still pending when the harness returns run now (their panics count)
+		if len(e.pendingGo(o.st)) > 0 {
+			for _, d := range e.drainGoroutines(o.st) {
+				if d.panicked {
+					e.handlePanic(d)
+				}
+			}
+		}
+		e.rep.PathsCompleted++
 	}
 	e.stats.Paths = len(outs)
 	return res
